@@ -193,7 +193,9 @@ def square_root_mod_prime(a, p):
 
     jac = jacobi(a, p)
     if jac == -1:
-        raise SquareRootError("%d has no square root modulo %d" % (a, p))
+        raise SquareRootError(
+            "0x%x has no square root modulo 0x%x" % (a, p)
+        )
 
     if p % 4 == 3:
         return pow(a, (p + 1) // 4, p)
